@@ -367,7 +367,11 @@ func judge(out *pipe.Outcome, ix *pipe.Index) pipe.Verdict {
 					}
 					// a failure that coincides with a stop request may legitimately be reported either way
 					failedDuring := false
-					for q := live.open; q <= live.tear && q < len(evs); q++ {
+					upTo := live.tear
+					if c.ret > upTo {
+						upTo = c.ret // a destination may fail after the source was already torn down
+					}
+					for q := live.open; q <= upTo && q < len(evs); q++ {
 						if evs[q].Kind == rig.KNote && (strings.Contains(evs[q].Note, "run fails")) || evs[q].Kind == rig.KFailure {
 							failedDuring = true
 						}
